@@ -17,6 +17,9 @@ pub(crate) enum BindingsFacade {
 
     #[cfg(test)]
     Mock(Arc<MockBindings>),
+
+    #[cfg(folo_verif)]
+    Verif(std::sync::Arc<dyn crate::verif::SimBindings>),
 }
 
 impl BindingsFacade {
@@ -36,6 +39,13 @@ impl Bindings for BindingsFacade {
             Self::Target(bindings) => bindings.sched_setaffinity_current(mask),
             #[cfg(test)]
             Self::Mock(mock) => mock.sched_setaffinity_current(mask),
+            #[cfg(folo_verif)]
+            Self::Verif(sim) => {
+                // SAFETY: The mask owns `len_bytes()` initialized bytes starting at `as_ptr()`.
+                let bytes =
+                    unsafe { std::slice::from_raw_parts(mask.as_ptr().cast::<u8>(), mask.len_bytes()) };
+                sim.sched_setaffinity_current(bytes)
+            }
         }
     }
 
@@ -44,6 +54,8 @@ impl Bindings for BindingsFacade {
             Self::Target(bindings) => bindings.sched_getcpu(),
             #[cfg(test)]
             Self::Mock(mock) => mock.sched_getcpu(),
+            #[cfg(folo_verif)]
+            Self::Verif(sim) => sim.sched_getcpu(),
         }
     }
 
@@ -52,6 +64,18 @@ impl Bindings for BindingsFacade {
             Self::Target(bindings) => bindings.sched_getaffinity_current(words),
             #[cfg(test)]
             Self::Mock(mock) => mock.sched_getaffinity_current(words),
+            #[cfg(folo_verif)]
+            Self::Verif(sim) => {
+                let mut mask = CpuMask::with_words(words);
+                let len_bytes = mask.len_bytes();
+                // SAFETY: The mask owns `len_bytes` initialized bytes starting at `as_mut_ptr()`,
+                // and we hold the only reference to it.
+                let bytes = unsafe {
+                    std::slice::from_raw_parts_mut(mask.as_mut_ptr().cast::<u8>(), len_bytes)
+                };
+                sim.sched_getaffinity_current(bytes)?;
+                Ok(mask)
+            }
         }
     }
 }
@@ -63,6 +87,8 @@ impl Debug for BindingsFacade {
             Self::Target(inner) => inner.fmt(f),
             #[cfg(test)]
             Self::Mock(inner) => inner.fmt(f),
+            #[cfg(folo_verif)]
+            Self::Verif(inner) => inner.fmt(f),
         }
     }
 }
